@@ -491,7 +491,6 @@ func inprocTBE(ref *core.N, boots []*core.N, threads int) result {
 	return finish(out, t)
 }
 
-
 // ---------------------------------------------------------------------------
 // child executor: FBP and TBE start goroutines; a panic there cannot be
 // recovered and a lost wg.Done() hangs.  The library calls therefore run in a
@@ -649,14 +648,20 @@ func childLoop() {
 		switch f[0] {
 		case "FBP":
 			r = inprocFBP(ref, boots, threads)
+		case "CANCEL":
+			r = inprocCancel(parseCancelArg(f[1], ref, boots))
 		case "LOG":
-			a := strings.SplitN(f[1], "@", 2)
+			a := strings.SplitN(f[1], "@", 3)
 			cutoff, _ := core.ParseRat(a[0])
 			th := 1
 			if len(a) > 1 {
 				fmt.Sscanf(a[1], "%d", &th)
 			}
-			r = inprocLog(ref, boots, cutoff, th)
+			opts := "abr"
+			if len(a) > 2 {
+				opts = a[2]
+			}
+			r = inprocLog(ref, boots, cutoff, th, opts)
 		default:
 			r = inprocTBE(ref, boots, threads)
 		}
@@ -793,7 +798,6 @@ func doSupN(c *core.Ctx, mode string, threads int, ref *core.N, boots []*core.N)
 	return f, t
 }
 
-
 // probeSup runs both functions without emitting anything (library mode only; "err","err" otherwise).
 func probeSup(c *core.Ctx, mode string, threads int, ref *core.N, boots []*core.N) (string, string) {
 	if mode != "lib" {
@@ -802,10 +806,9 @@ func probeSup(c *core.Ctx, mode string, threads int, ref *core.N, boots []*core.
 	return libFBPn(ref, boots, threads).out, libTBEn(ref, boots, threads).out
 }
 
-
-// inprocLog runs TBE with --moved-taxa, --per-branches and --out-raw (one thread) and returns what
-// it wrote besides the supports: "raw\ttaxa\tbranches" (see doLog).
-func inprocLog(ref *core.N, boots []*core.N, cutoff float64, threads int) result {
+// inprocLog runs TBE with the options of `opts` (a = --moved-taxa, b = --per-branches, r = --out-raw) and
+// returns what it wrote: "raw\ttaxa\tbranches\tafterDump" (see doLog).
+func inprocLog(ref *core.N, boots []*core.N, cutoff float64, threads int, opts string) result {
 	t := build(ref)
 	ch := channel(boots)
 	logf, err := os.CreateTemp("", "c10log")
@@ -819,7 +822,7 @@ func inprocLog(ref *core.N, boots []*core.N, cutoff float64, threads int) result
 			return err
 		}
 		var err error
-		raw, err = support.TBE(t, ch, threads, true, true, true, cutoff, logf, nil)
+		raw, err = support.TBE(t, ch, threads, strings.Contains(opts, "r"), strings.Contains(opts, "a"), strings.Contains(opts, "b"), cutoff, logf, nil)
 		return err
 	})
 	logf.Close()
@@ -827,14 +830,30 @@ func inprocLog(ref *core.N, boots []*core.N, cutoff float64, threads int) result
 		return result{out: out}
 	}
 	data, _ := os.ReadFile(logf.Name())
-	return parseLogOutputs(raw, string(data))
+	res := parseLogOutputs(raw, string(data))
+	if res.out != "ok" {
+		return res
+	}
+	if raw == nil && strings.Contains(opts, "r") {
+		return result{out: "clifail:no-raw-tree"}
+	}
+	fin := finish("ok", t)
+	if fin.out != "ok" {
+		return result{out: fin.out}
+	}
+	res.after += "\t" + fin.after
+	return res
 }
 
 // parseLogOutputs reads the raw tree and the log file of TBE.
 func parseLogOutputs(raw *tree.Tree, data string) result {
 	var rawItems, taxa, branches []string
 	bad := false
-	for _, e := range raw.Edges() {
+	var rawEdges []*tree.Edge
+	if raw != nil {
+		rawEdges = raw.Edges()
+	}
+	for _, e := range rawEdges {
 		nm := e.Right().Name()
 		if !e.Right().Tip() && strings.Count(nm, "|") == 2 {
 			f := strings.Split(nm, "|")
@@ -894,7 +913,6 @@ func parseLogOutputs(raw *tree.Tree, data string) result {
 	return result{out: "ok", after: join(rawItems) + "\t" + join(taxa) + "\t" + join(branches)}
 }
 
-
 // cliLog: the same through `gotree compute support tbe --moved-taxa --per-branches -r … -l …`.
 func cliLog(c *core.Ctx, ref *core.N, boots []*core.N, cutoff float64) {
 	refTxt := build(ref).Newick() + "\n"
@@ -915,8 +933,18 @@ func cliLog(c *core.Ctx, ref *core.N, boots []*core.N, cutoff float64) {
 	}
 	rf, bf := c.TmpFile(refTxt), c.TmpFile(sb.String())
 	lf, rawf, of := c.TmpFile(""), c.TmpFile(""), c.TmpFile("")
-	r := c.RunCLI("", 20*time.Second, "compute", "support", "tbe", "-i", rf, "-b", bf, "-t", "1", "--moved-taxa", "--per-branches",
-		"--dist-cutoff", fmt.Sprint(cutoff), "-l", lf, "-r", rawf, "-o", of)
+	opts := logOpts(c.G)
+	args := []string{"compute", "support", "tbe", "-i", rf, "-b", bf, "-t", "1", "--dist-cutoff", fmt.Sprint(cutoff), "-l", lf, "-o", of}
+	if strings.Contains(opts, "a") {
+		args = append(args, "--moved-taxa")
+	}
+	if strings.Contains(opts, "b") {
+		args = append(args, "--per-branches")
+	}
+	if strings.Contains(opts, "r") {
+		args = append(args, "-r", rawf)
+	}
+	r := c.RunCLI("", 20*time.Second, args...)
 	res := result{out: "ok"}
 	switch {
 	case r.Timeout:
@@ -929,24 +957,52 @@ func cliLog(c *core.Ctx, ref *core.N, boots []*core.N, cutoff float64) {
 	default:
 		rawTxt, _ := os.ReadFile(rawf)
 		data, _ := os.ReadFile(lf)
-		raw, err := newick.NewParser(strings.NewReader(string(rawTxt))).Parse()
-		if err != nil {
-			res.out = "clifail:raw-tree"
-		} else {
+		var raw *tree.Tree
+		if strings.Contains(opts, "r") {
+			var err error
+			raw, err = newick.NewParser(strings.NewReader(string(rawTxt))).Parse()
+			if err != nil {
+				res.out = "clifail:raw-tree"
+			}
+		} else if len(strings.TrimSpace(string(rawTxt))) != 0 {
+			res.out = "clifail:raw-tree-not-asked-for"
+		}
+		if res.out == "ok" {
 			res = parseLogOutputs(raw, string(data))
+		}
+		if res.out == "ok" {
+			outTxt, _ := os.ReadFile(of)
+			a, err := parseNewick(strings.TrimSpace(string(outTxt)))
+			if err != nil {
+				res = result{out: "clifail:" + core.Escape(err.Error())}
+			} else {
+				res.after += "\t" + a.Dump()
+			}
 		}
 	}
 	parts := strings.Split(res.after, "\t")
-	for len(parts) < 3 {
+	for len(parts) < 4 {
 		parts = append(parts, "")
 	}
-	c.Emit("C10.log", pref.Dump(), core.Dumps(pboots), core.Rat(cutoff), res.out, parts[0], parts[1], parts[2])
+	c.Emit("C10.logx", "cli", opts, pref.Dump(), core.Dumps(pboots), core.Rat(cutoff), res.out, parts[0], parts[1], parts[2], parts[3])
+}
+
+// logOpts draws which of --moved-taxa (a), --per-branches (b), --out-raw (r) are given
+func logOpts(g *core.G) string {
+	if g.Chance(0.4) {
+		return "abr"
+	}
+	return []string{"a", "b", "r", "ab", "ar", "br", ""}[g.Intn(7)]
 }
 
 var logCutoffs = []float64{0.5, 0.25, 0.75, 1.0}
 
 // doLog: the moved-taxa / per-branch / raw-tree outputs of TBE against the model (correspondence).
 func doLog(c *core.Ctx, ref *core.N, boots []*core.N, cutoff float64) {
+	doLogX(c, ref, boots, cutoff, logOpts(c.G))
+}
+
+func doLogX(c *core.Ctx, ref *core.N, boots []*core.N, cutoff float64, opts string) {
 	var r result
 	// the accumulators of the log are shared by the workers (one mutex): same tables with any number of threads
 	threads := 1
@@ -954,15 +1010,15 @@ func doLog(c *core.Ctx, ref *core.N, boots []*core.N, cutoff float64) {
 		threads = threadChoices[c.G.Intn(len(threadChoices))]
 	}
 	if useChild {
-		r = callChildArg("LOG", fmt.Sprintf("%s@%d", core.Rat(cutoff), threads), ref, boots)
+		r = callChildArg("LOG", fmt.Sprintf("%s@%d@%s", core.Rat(cutoff), threads, opts), ref, boots)
 	} else {
-		r = inprocLog(ref, boots, cutoff, threads)
+		r = inprocLog(ref, boots, cutoff, threads, opts)
 	}
 	parts := strings.Split(r.after, "\t")
-	for len(parts) < 3 {
+	for len(parts) < 4 {
 		parts = append(parts, "")
 	}
-	c.Emit("C10.log", ref.Dump(), core.Dumps(boots), core.Rat(cutoff), r.out, parts[0], parts[1], parts[2])
+	c.Emit("C10.logx", "lib", opts, ref.Dump(), core.Dumps(boots), core.Rat(cutoff), r.out, parts[0], parts[1], parts[2], parts[3])
 }
 
 // doMtd calls support.MinTransferDist directly (no goroutine there) on every
@@ -1028,7 +1084,6 @@ func doInv(c *core.Ctx, ref1 *core.N, boots1 []*core.N, ref2 *core.N, boots2 []*
 }
 
 // ---------------------------------------------------------------------------
-
 
 // ---------------------------------------------------------------------------
 // the files as the binary reads them (cmd/root.go readTree / readTrees)
@@ -1268,13 +1323,37 @@ func Replay(c *core.Ctx, lines []string) {
 				// a race does not show on every run: up to 10 times while every call is accepted as expected
 				doSession(c, ss)
 			}
+		case f[0] == "C10.cancel" && len(f) >= 7:
+			r1, err := core.ParseDump(f[5])
+			if err != nil {
+				panic(err)
+			}
+			doCancel(c, parseCancelArg(strings.Join(f[1:5], ";"), r1, parseDumps(f[6])))
+		case f[0] == "C10.out" && len(f) >= 8:
+			if c.Gotree == "" {
+				continue
+			}
+			r1, err := core.ParseDump(f[6])
+			if err != nil {
+				panic(err)
+			}
+			q := outReq{which: f[1], outSel: f[2], rawSel: f[3], logSel: f[4], threads: 1, ref: r1, boots: parseDumps(f[7])}
+			fmt.Sscanf(f[5], "%d", &q.threads)
+			doCliOut(c, q)
+		case f[0] == "C10.logx" && len(f) >= 6:
+			r1, err := core.ParseDump(f[3])
+			if err != nil {
+				panic(err)
+			}
+			cutoff, _ := core.ParseRat(f[5])
+			doLogX(c, r1, parseDumps(f[4]), cutoff, f[2])
 		case f[0] == "C10.log" && len(f) >= 4:
 			r1, err := core.ParseDump(f[1])
 			if err != nil {
 				panic(err)
 			}
 			cutoff, _ := core.ParseRat(f[3])
-			doLog(c, r1, parseDumps(f[2]), cutoff)
+			doLogX(c, r1, parseDumps(f[2]), cutoff, "abr")
 		case f[0] == "C10.mtd" && len(f) >= 3:
 			r1, err := core.ParseDump(f[1])
 			if err != nil {
@@ -1385,7 +1464,7 @@ func genCase(c *core.Ctx, mode string) {
 	} else if !c.Quick() && mode == "lib" && g.Chance(0.02) {
 		k = 15 + g.Intn(15)
 	}
-	if mode == "lib" && g.Chance(0.01) {
+	if mode == "lib" && g.Chance(0.02) {
 		k = 0
 	}
 	var boots []*core.N
@@ -1400,7 +1479,7 @@ func genCase(c *core.Ctx, mode string) {
 	// branch ids no parser assigns, single-child nodes
 	special := false
 	if mode == "lib" && k > 0 && !mismatch {
-		switch sp := g.Intn(100); {
+		switch sp := g.Intn(100) / 2; { // round 7: twice as often (each of these model branches in > 1 % of the cases)
 		case sp < 2:
 			t := ref
 			if g.Chance(0.6) {
@@ -1505,7 +1584,7 @@ func Run(c *core.Ctx) {
 		Replay(c, core.ReadRequests(c.Arg))
 		return
 	}
-	n := c.Scale(400, 3200)
+	n := c.Scale(400, 2900)
 	for i := 0; i < n && timeouts < maxTimeouts; i++ {
 		smallFirst = i < n/8
 		manyTaxa = !smallFirst && (i%(n/3) == n/6 || (!c.Quick() && c.G.Chance(0.004))) // three inputs per run, more in the thorough tier
@@ -1518,13 +1597,19 @@ func Run(c *core.Ctx) {
 	for i := 0; i < c.Scale(10, 30) && timeouts < maxTimeouts; i++ {
 		manyTreesCase(c)
 	}
+	for i := 0; i < c.Scale(60, 300) && timeouts < maxTimeouts; i++ {
+		cancelCase(c)
+	}
 	if c.Gotree != "" {
 		m := c.Scale(25, 200)
 		for i := 0; i < m && timeouts < maxTimeouts; i++ {
 			genCase(c, "cli")
 		}
-		for i := 0; i < m && timeouts < maxTimeouts; i++ {
+		for i := 0; i < c.Scale(50, 200) && timeouts < maxTimeouts; i++ {
 			cliFilesCase(c)
+		}
+		for i := 0; i < c.Scale(50, 200) && timeouts < maxTimeouts; i++ {
+			cliOutCase(c)
 		}
 		for i := 0; i < m/2 && timeouts < maxTimeouts; i++ {
 			ref := refTree(c)
